@@ -354,9 +354,39 @@ void harness(void) { vp_one = 1;
                    stubs=['std::string (char array with length; rfind / find / substr modelled in C)'], timeout=600)
 
 
+def h_synonym_match():
+    """BOUNDED stand-in (names of at most 5 characters): the synonym test of SolverOptionManager::FindOption (the lambda handed to find_if) -
+    a typed name addresses an option through an inline synonym exactly when the two are equal ignoring letter case (not a prefix, not a
+    longer name).  strcasecmp / strncasecmp are C models of the POSIX functions over char arrays with length."""
+    N = 5
+    parts = ['#include "mp_shim.h"\nint vp_one;\n', '''
+#define VP_MAXLEN %d
+typedef struct { char c[VP_MAXLEN + 1]; size_t n; } Str;      /* c[n] == 0 */
+static int lower(int ch) { return ch >= 'A' && ch <= 'Z' ? ch + 32 : ch; }
+static const char *vp_c_str(const Str *s) { return s->c; }
+static size_t vp_size(const Str *s) { return s->n; }
+static int strncasecmp(const char *a, const char *b, size_t n) { for (size_t k = 0; k < n; ++k) { int x = lower((unsigned char)a[k]), y = lower((unsigned char)b[k]); if (x != y) return x - y; if (!x) return 0; } return 0; }
+static int strcasecmp(const char *a, const char *b) { return strncasecmp(a, b, VP_MAXLEN + 1); }
+''' % N,
+             Fn(SOLVER, r'\[&name_str\]\(const std::string& syn\)', '_Bool synonym_matches(const Str *name_str, const Str *syn)',
+                subst=[(r'\b(name_str|syn)\.c_str\(\)', r'vp_c_str(\1)', -1), (r'\b(name_str|syn)\.size\(\)', r'vp_size(\1)', -1)],
+                label='mp::SolverOptionManager::FindOption [synonym test]', nmatches=1), '''
+void harness(void) { vp_one = 1; Str a, b;
+  __CPROVER_assume(a.n <= VP_MAXLEN && b.n <= VP_MAXLEN && a.c[a.n] == 0 && b.c[b.n] == 0);
+  for (size_t k = 0; k < VP_MAXLEN; ++k) { if (k < a.n) __CPROVER_assume(a.c[k] != 0); if (k < b.n) __CPROVER_assume(b.c[k] != 0); }
+  _Bool m = synonym_matches(&a, &b);
+  _Bool eq = a.n == b.n; for (size_t k = 0; k < VP_MAXLEN; ++k) if (k < a.n && k < b.n && lower((unsigned char)a.c[k]) != lower((unsigned char)b.c[k])) eq = 0;
+  __CPROVER_assert(m == eq, "a name matches a synonym exactly when they are the same name up to letter case");
+  VP_REACH("end");
+}
+''']
+    return Harness('C11.FindOption.synonym.bounded', 'C11', parts, plain=True, bounded={'unwind': N + 3, 'reason': 'names of at most %d characters; strcasecmp / strncasecmp are C models' % N},
+                   stubs=['std::string (char array with length)', 'strcasecmp / strncasecmp (C models of the POSIX functions)'], timeout=600)
+
+
 def harnesses(tier, seed):
     hs = [h_scanner(n) for n in SCANNERS]
-    hs += [h_parse_num('int'), h_parse_num('double'), h_parse_string(), h_pos(), h_parse_options(), h_wc_match()]
+    hs += [h_parse_num('int'), h_parse_num('double'), h_parse_string(), h_pos(), h_parse_options(), h_wc_match(), h_synonym_match()]
     for h in hs:
         h.replay = replay
     return hs
